@@ -1527,6 +1527,70 @@ func specHasPredefRef(m map[*runtime.Function]map[*reflect.Value]int16, fn *runt
 //@   ensures[C17] !old(specHasPredef(vs.predefGlobal, v)) && !old(specHasPredefRef(vs.predefVarRef, vs.emitter.fb.fn, v)) ==> int(result) == old(len(vs.globals))
 //@   ensures[C17] !old(specHasPredef(vs.predefGlobal, v)) && !old(specHasPredefRef(vs.predefVarRef, vs.emitter.fb.fn, v)) ==> specHasPredef(vs.predefGlobal, v) && vs.predefGlobal[v] == result
 
+// The other tables of the varStore (C17): a package variable declared in a
+// template or package gets the next entry of the list of globals, the entry
+// holds the Global it was created with, earlier entries keep their place, and
+// the name is bound to exactly that index in the declaring package; a binding
+// made for an importing file or a closure names the index it was given and
+// leaves the bindings of other names and packages alone.
+
+func specHasPkgVar(m map[*ast.Package]map[string]int16, pkg *ast.Package, name string) bool {
+	_, ok := m[pkg][name]
+	return ok
+}
+
+func specIsIdent(v ast.Expression) bool { _, ok := v.(*ast.Identifier); return ok }
+func specIdentName(v ast.Expression) string { return v.(*ast.Identifier).Name }
+
+func specHasClosureVar(m map[*runtime.Function]map[string]int16, fn *runtime.Function, name string) bool {
+	_, ok := m[fn][name]
+	return ok
+}
+
+//@ func (*varStore).createScriggoPackageVar
+//@   props X00 C17
+//@   panics allowed
+//@   requires vs != nil && vs.scriggoPackageVarRefs != nil
+//@   requires len(vs.globals) < 32000
+//@   ensures[C17] len(vs.globals) == old(len(vs.globals))+1
+//@   ensures[C17] int(result) == old(len(vs.globals))
+//@   ensures[C17] vs.globals[old(len(vs.globals))].Name == global.Name && vs.globals[old(len(vs.globals))].Pkg == global.Pkg
+//@   ensures[C17] specHasPkgVar(vs.scriggoPackageVarRefs, pkg, global.Name) && vs.scriggoPackageVarRefs[pkg][global.Name] == result
+//@   ensures[C17] forall(0, old(len(vs.globals)), func(k int) bool { return vs.globals[k].Name == old(vs.globals[k].Name) && vs.globals[k].Pkg == old(vs.globals[k].Pkg) })
+
+// nonLocalVarIndex: a name that is neither predefined nor a selector on a
+// non-identifier is looked up among the closure variables of the current
+// function first and among the package variables of the current package second;
+// what it returns is what the tables hold.
+//@ func (*varStore).nonLocalVarIndex
+//@   props X00 C17
+//@   panics allowed
+//@   opt track predefVarIndex
+//@   ensures[C17] !called("predefVarIndex") && ok && old(specIsIdent(v)) && specHasClosureVar(vs.closureVars, vs.emitter.fb.fn, specIdentName(v)) ==> index == int(vs.closureVars[vs.emitter.fb.fn][specIdentName(v)])
+//@   ensures[C17] !called("predefVarIndex") && ok && old(specIsIdent(v)) && !specHasClosureVar(vs.closureVars, vs.emitter.fb.fn, specIdentName(v)) ==> specHasPkgVar(vs.scriggoPackageVarRefs, vs.emitter.pkg, specIdentName(v)) && index == int(vs.scriggoPackageVarRefs[vs.emitter.pkg][specIdentName(v)])
+//@   ensures[C17] !called("predefVarIndex") && !ok && old(specIsIdent(v)) ==> !specHasClosureVar(vs.closureVars, vs.emitter.fb.fn, specIdentName(v)) && !specHasPkgVar(vs.scriggoPackageVarRefs, vs.emitter.pkg, specIdentName(v))
+
+//@ func (*varStore).bindScriggoPackageVar
+//@   props X00 C17
+//@   panics allowed
+//@   requires vs != nil && vs.scriggoPackageVarRefs != nil
+//@   ensures[C17] specHasPkgVar(vs.scriggoPackageVarRefs, pkg, name) && vs.scriggoPackageVarRefs[pkg][name] == index
+//@   ensures[C17] len(vs.globals) == old(len(vs.globals))
+
+//@ func (*varStore).setClosureVar
+//@   props X00 C17
+//@   panics allowed
+//@   requires vs != nil && vs.closureVars != nil
+//@   ensures[C17] specHasClosureVar(vs.closureVars, fn, name) && vs.closureVars[fn][name] == index
+//@   ensures[C17] len(vs.globals) == old(len(vs.globals))
+
+//@ func (*varStore).setPredefVarRef
+//@   props X00 C17
+//@   panics allowed
+//@   requires vs != nil && vs.predefVarRef != nil
+//@   ensures[C17] specHasPredefRef(vs.predefVarRef, fn, v) && vs.predefVarRef[fn][v] == index
+//@   ensures[C17] len(vs.globals) == old(len(vs.globals))
+
 // ---------------------------------------------------------------------------
 // C16, `import "file" for A, B`: only the listed names of the imported file
 // become available in the importing file (the others stay what they were, e.g.
